@@ -25,6 +25,25 @@ NOT_DECIDED = ("acyclicity of the non-consuming moves of each compiled machine; 
 ENGINES = ["E1 source model", "refusal-guard recogniser", "E5/E6 transition-body rows"]
 
 
+def _cycle_check_starts(vf):
+    """which transitions the cycle check starts a walk from: {'fallthrough'} (old form: `if not transition.is_fallthrough: continue`) or
+    {'fallthrough', 'end'} (transitions listing End start a walk for the symbol End only); derived from the `continue` guard of the inner loop"""
+    inner = next((n for n in ast.walk(vf) if isinstance(n, ast.For) and ast.unparse(n.iter) == "state.transitions"), None)
+    if inner is None or not inner.body or not isinstance(inner.body[0], ast.If):
+        return set()
+    first = inner.body[0]
+    if ast.unparse(first.test) == "not transition.is_fallthrough" and len(first.body) == 1 and isinstance(first.body[0], ast.Continue) and not first.orelse:
+        return {"fallthrough"}
+    kinds = set()
+    if ast.unparse(first.test) == "transition.is_fallthrough" and [ast.unparse(x) for x in first.body] == ["symbols = transition.on_values"]:
+        kinds.add("fallthrough")
+        nxt = first.orelse[0] if len(first.orelse) == 1 and isinstance(first.orelse[0], ast.If) else None
+        if nxt is not None and ast.unparse(nxt.test) == "DFTransition.End in transition.on_values" and [ast.unparse(x) for x in nxt.body] == ["symbols = [DFTransition.End]"] \
+                and len(nxt.orelse) == 1 and isinstance(nxt.orelse[0], ast.Continue):
+            kinds.add("end")
+    return kinds
+
+
 def run(ctx, rep, tier):
     model, E = ctx.model, ctx.emit
 
@@ -47,7 +66,8 @@ def run(ctx, rep, tier):
     check_refusal(rep, model, "C04.a", "DfaCompileCtx._verify_fallthrough_loop", r"^state in visited$", "a fall-through path returning to its own state is refused",
                   "a non-consuming cycle found by the check must be refused")
     vs = ast.unparse(vf)
-    rep.check("for state in self.dfa.states:" in vs and "for transition in state.transitions:" in vs and "if not transition.is_fallthrough:" in vs, "C04.a",
+    start_kinds = _cycle_check_starts(vf)
+    rep.check("for state in self.dfa.states:" in vs and "for transition in state.transitions:" in vs and "fallthrough" in start_kinds, "C04.a",
               "DfaCompileCtx._verify_fallthrough_loop", "starts from every fall-through transition of every state", "the cycle check no longer starts from every fall-through transition")
 
     # ------------------------------------------------------------------ C04.b structural refusals
@@ -124,21 +144,57 @@ def run(ctx, rep, tier):
     rep.check(pa.count("self.exception_handlers[ErrorReasons.OUT_OF_SPACE]") == 2, "C04.c", "ParseCtx._parse_assign_stmt", "appends capture the innermost out-of-space handler at parse time", "append out-of-space target changed")
 
     # ------------------------------------------------------------------ C04.d verifier's case analysis
-    rep.rule("C04.d", "the cycle check follows condition points and plain states; only actions that always leave elsewhere break a cycle")
-    cons = model.func("DfaCompileCtx._verify_fallthrough_loop.consider")
-    csrc = ast.unparse(cons.body[-1])
-    want = ("return not any((x.get_target_override_mode() in [ActionOverrideMode.ALWAYS_GOTO_OTHER, ActionOverrideMode.ALWAYS_GOTO_UNDEFINED] and "
-            "transition.target not in x.get_target_override_targets() for x in transition.actions))")
-    modes = set(re.findall(r"ActionOverrideMode\.(\w+)", csrc))
+    rep.rule("C04.d", "the cycle check follows condition points and plain states, and follows every step to where its actions can send the machine; only actions that always leave end a step early")
+    vf = model.func("DfaCompileCtx._verify_fallthrough_loop")
     members = {n for n, _ in model.enum_members("ActionOverrideMode")}
-    rep.check(modes <= members, "C04.d", "DfaCompileCtx._verify_fallthrough_loop.consider", "names existing override modes", f"unknown modes {sorted(modes - members)}")
-    rep.check(csrc == want, "C04.d", "DfaCompileCtx._verify_fallthrough_loop.consider", "a transition is skipped only if one of its actions ALWAYS leaves to somewhere else",
-              f"cycle-breaker test is `{csrc}`: actions that only *may* leave (conditional break, append overflow) must not hide a non-consuming cycle")
+    lt = model.functions.get("DfaCompileCtx._verify_fallthrough_loop.leads_to")
+    if lt is None:
+        cons = model.functions.get("DfaCompileCtx._verify_fallthrough_loop.consider")
+        csrc = ast.unparse(cons.body[-1]) if cons is not None else "<no successor function>"
+        rep.bad("C04.d", "DfaCompileCtx._verify_fallthrough_loop", "successors of a step = targets its actions can send the machine to (+ its own target unless one always leaves)",
+                f"the walk decides per transition with `{csrc[:160]}`: a transition whose action ALWAYS leaves elsewhere (a break) is dropped from the walk instead of being followed "
+                "to where the action goes, and targets an action only MAY leave for (a break under an if) are not followed: `loop { loop { break; \"x\"; } }` and "
+                "`loop A { loop B { if x == 1 { break B; } \"a\"; x = 1; } }` are accepted and feed() spins", line=vf.lineno)
+    else:
+        lsrc = ast.unparse(lt)
+        modes = set(re.findall(r"ActionOverrideMode\.(\w+)", lsrc))
+        rep.check(modes <= members, "C04.d", "DfaCompileCtx._verify_fallthrough_loop.leads_to", "names existing override modes", f"unknown modes {sorted(modes - members)}")
+        from ..pat import shape
+        want = ("targets = []\nfor x in transition.actions:\n    if x.get_target_override_mode() != ActionOverrideMode.NONE:\n        targets.extend(x.get_target_override_targets())\n"
+                "    if x.get_target_override_mode() in [ActionOverrideMode.ALWAYS_GOTO_OTHER, ActionOverrideMode.ALWAYS_GOTO_UNDEFINED]:\n        return targets\n"
+                "return targets + [transition.target]")
+        body = "\n".join(ast.unparse(x) for x in strip_doc(lt.body))
+        rep.check(body == want, "C04.d", "DfaCompileCtx._verify_fallthrough_loop.leads_to",
+                  "every action's override targets are successors; the step's own target too unless an action always leaves (in action order)",
+                  f"successor function is `{body[:300]}`: actions that may or always leave (conditional break, break) must be followed, and only an action that ALWAYS leaves hides the own target")
     aux = model.func("DfaCompileCtx._verify_fallthrough_loop.aux")
     asrc = ast.unparse(aux)
-    rep.check("isinstance(x, DFConditionPoint)" in asrc and "for i in x.transitions:" in asrc and "real_target = x[transition.on_values]" in asrc and
-              "real_target.is_fallthrough and consider(real_target)" in asrc, "C04.d", "DfaCompileCtx._verify_fallthrough_loop.aux",
-              "condition points: every branch; plain states: the transition taken for the same symbols, if it is a fallthrough", "cycle walk changed")
+    old_walk = "real_target = x[transition.on_values]" in asrc and "real_target.is_fallthrough and consider(real_target)" in asrc
+    new_walk = "steps = x.transitions" in asrc and "real_target = x[symbols]" in asrc and "steps = [real_target] if real_target and stays_in_place(real_target) else []" in asrc and \
+        "for step in steps:\n        for target in leads_to(step):\n            if target not in visited:\n                visited.add(target)\n                aux(target)" in asrc
+    rep.check("isinstance(x, DFConditionPoint)" in asrc and (old_walk or new_walk), "C04.d", "DfaCompileCtx._verify_fallthrough_loop.aux",
+              "condition points: every branch; plain states: the transition taken for the same symbols, if it does not consume; every successor is walked", "cycle walk changed")
+
+    # d2: the redirect of an overflowing append does not consume although its transition does (open: F-25)
+    rep.rule("C04.d2", "the cycle check follows the non-consuming redirect of an append that overflows (a consuming transition whose action MAY leave for the out-of-space handler)")
+    vs = ast.unparse(vf)
+    follows = "MAY_GOTO_TARGET" in vs
+    rep.check(follows, "C04.d2", "DfaCompileCtx._verify_fallthrough_loop", "override targets of MAY_GOTO_TARGET actions on consuming transitions are zero-width successors",
+              "an append that overflows stores its out-of-space target and re-dispatches WITHOUT consuming the byte, but the cycle check only walks non-consuming transitions: "
+              "`loop { try { s += /./; } catch (outofspace) { } }` is accepted and feed() spins once the buffer is full")
+
+    # d3 (F-78): a matched `end` pattern consumes nothing - end() goes on from its target with end-of-input still ahead
+    rep.rule("C04.d3", "the cycle check treats a transition that lists End as a non-consuming step for end-of-input (end() re-dispatches after a matched `end` pattern)")
+    sip = model.functions.get("DfaCompileCtx._verify_fallthrough_loop.stays_in_place")
+    ok = "end" in start_kinds and sip is not None and \
+        ast.unparse(sip.body[-1]) == "return t.is_fallthrough or (symbols == [DFTransition.End] and DFTransition.End in t.on_values)" and "real_target = x[symbols]" in asrc
+    redispatch = any(isinstance(n, ast.Constant) and n.value == "goto repeatswitch;" for n in ast.walk(model.func("CodegenCtx._generate_end_switch_body")))
+    rep.check(ok or not redispatch, "C04.d3", "DfaCompileCtx._verify_fallthrough_loop", "walks also start at / pass through transitions listing End, for the symbol End only",
+              "end() goes on dispatching after a matched `end` pattern, but the cycle check does not treat that step as non-consuming: `loop { case { \"a\" -> {} end -> { yield Y; } } }` "
+              "is accepted and end() returns the yield code for ever")
+    rep.check(ok, "C04.d3", "DfaCompileCtx._verify_fallthrough_loop", "zero-width loops at end-of-input are refused",
+              "`loop { case { \"a\" -> {} end -> { yield Y; } } }` goes round at end-of-input without ever finishing (its `else` twin is refused as an infinite loop): "
+              "with the optimiser's merged yield, end() returns the yield code for ever")
 
     # d2: override redirects are non-consuming moves too
     rep.rule("C04.d2", "the cycle check follows the non-consuming redirects of actions that may override the next state (append overflow -> out-of-space handler)")
